@@ -139,3 +139,23 @@ Theorem C12_source_refusal_books_nothing : forall fa c u base f d tp bp e total 
   ZV.gen.PurePlasma.enoughPlasma tp bp false (fst av) (snd av) f d base 0 0 = GoSem.Ok (e, total, b, booked) ->
   e <> 0 -> booked = None.
 Proof. exact source_refusal_books_nothing. Qed.
+
+(* the base cost of a block IS the code: vm.GetBasePlasmaForAccountBlock translated whole by go2coq on every run. Inputs:
+   IsEmbeddedAddress(block.Address), block.BlockType, the error of embedded.GetEmbeddedMethod, len(block.Data), the
+   results of method.GetPlasma; [key] / [p] the method and its cost in the method tables dumped from the real node. *)
+Theorem C12_base_plasma_is_the_source : forall bt gm dl key p,
+  0 <= dl -> (gm = 0 -> method_plasma key = Some p) ->
+  match base_plasma (ZV.gen.PureVerifCommon.ab_IsReceiveBlock bt) (negb (gm =? ZV.gen.Pure.Err_constants_ErrNotContractAddress)) (gm =? 0) key dl with
+  | BOk b => ZV.gen.PurePlasma.GetBasePlasmaForAccountBlock false bt gm dl p 0 = (b, 0)
+  | BErr => snd (ZV.gen.PurePlasma.GetBasePlasmaForAccountBlock false bt gm dl p 0) <> 0
+  end.
+Proof. exact base_plasma_is_source. Qed.
+Theorem C12_source_base_plasma_embedded_is_free : forall bt gm dl p e,
+  ZV.gen.PurePlasma.GetBasePlasmaForAccountBlock true bt gm dl p e = (0, 0).
+Proof. exact base_plasma_embedded_is_free. Qed.
+Theorem C12_source_base_plasma_at_least_base : forall bt dl p e b,
+  0 <= dl ->
+  ZV.gen.PurePlasma.GetBasePlasmaForAccountBlock false bt ZV.gen.Pure.Err_constants_ErrNotContractAddress dl p e = (b, 0) ->
+  AccountBlockBasePlasma <= b /\
+  (ZV.gen.PureVerifCommon.ab_IsReceiveBlock bt = false -> b = AccountBlockBasePlasma + ABByteDataPlasma * dl /\ dl <= MaxDataLength).
+Proof. exact base_plasma_at_least_base. Qed.
